@@ -612,6 +612,8 @@ def build_stack(ctx: Ctx, tag: int, stack: list):
         fun.log, fun.tag = rec.log, rec.tag
     elif form == "callable":
         fun = userdefs.CallableObjective(rec)
+    elif form == "plain":
+        fun = userdefs.PlainObjective(ctx.log, tag, ctx.desc["obj"], ctx.desc["box"]["bounds"], ctx.sign, float(sh[tag]) if sh and tag >= 0 else 0.0)
     else:
         fun = rec
     fp = FunctionProblem(fun, ctx.bounds.copy(), ctx.maximize, use_cache=bool(ctx.desc.get("use_cache")))
